@@ -111,3 +111,11 @@ char tail_chr = '\n';
 int tail_num = 1'0;
 const char *tail_raw = R"x(tail)x";
 #define LAST(a) (a)
+template<class... Ts> struct Variadic { static constexpr int count = sizeof...(Ts); };
+template<class T, class... Rest> struct Variadic<T, Rest...> { T head; Variadic<Rest...> tail; };
+typedef Variadic<int, double, char> VariadicIDC;
+Variadic<int, Variadic<long, short>, float> variadic_value;
+#define SELF(x) SELF(x) + 1
+int self_ref = 2;
+#define PAIR(a, b) a, b
+int pair_arr[] = { PAIR(1, PAIR(2, 3)) };
